@@ -71,8 +71,10 @@ SAFE_METHODS = {
           "isdigit", "isascii", "encode", "casefold", "rsplit", "isalpha", "isspace", "isalnum", "isprintable", "removeprefix", "removesuffix", "zfill", "isupper", "islower", "rindex", "isdecimal"},
     tuple: {"index", "count"},
     set: {"add", "update"},
-    bytes: {"hex", "startswith", "endswith", "find", "rfind", "index", "count", "decode", "isascii", "strip", "lstrip", "rstrip", "split", "upper", "lower"},
-    bytearray: {"append", "extend"},
+    bytes: {"hex", "startswith", "endswith", "find", "rfind", "index", "rindex", "count", "decode", "isascii", "strip", "lstrip", "rstrip", "split", "rsplit", "upper", "lower", "partition", "rpartition",
+            "splitlines", "replace", "join", "isdigit", "isalpha", "isalnum", "isspace", "removeprefix", "removesuffix", "zfill", "translate"},
+    bytearray: {"append", "extend", "hex", "startswith", "endswith", "find", "rfind", "index", "rindex", "count", "decode", "isascii", "strip", "lstrip", "rstrip", "split", "partition", "rpartition",
+                "splitlines", "replace", "join", "clear", "pop", "copy", "insert", "reverse", "remove"},
 }
 PRIMS = (int, str, bool, float, bytes, type(None))
 
